@@ -48,6 +48,7 @@ def setup(ctx):
     ctx.require("monitor", "new_version_ok", 8)
     ctx.require("monitor", "old_version_attempts_client", 3)
     ctx.require("monitor", "faulty_material_starts", 27)
+    ctx.require("monitor", "bind_fault_starts", 16)
     ctx.require("monitor", "wired_through_serve_command", 5)
     ctx.require("monitor", "plaintext_probes", 40)
     ctx.require("monitor", "plaintext_probes_waited_past_timeouts", 30)
@@ -387,6 +388,57 @@ def run_faulty_material(ctx, base):
                 close_loop(loop)
 
 
+def run_bind_faults(ctx, base):
+    """The first attempt(s) to listen fail (address in use, address family not available): a server that gives up
+    serves nobody; a server that tries again - another family, another way - listens with TLS like the first attempt
+    would have.  Both backends, supplied certificates."""
+    import contextlib
+    import io
+    from pathlib import Path as _P
+
+    from nauyaca.server.config import ServerConfig
+
+    from vf import quiet_logs, tlsbench
+    from vf.gen import certs
+    from vf.sim import capture_factory
+    from vf.vloop import close_loop, new_loop
+
+    ident = certs.identity("c20-bind", "ec")
+    for backend in ("stdlib", "pyopenssl"):
+        for host in ("127.0.0.1", "localhost", "", "::"):
+            for nerr in (1, 2):
+                try:
+                    sc = ServerConfig(host=host or "localhost", port=1965, document_root=os.path.join(base, "doc"), require_client_cert=(backend == "pyopenssl"), certfile=_P(ident.certfile), keyfile=_P(ident.keyfile))
+                    if host == "":
+                        sc.host = ""
+                    with contextlib.redirect_stdout(io.StringIO()), contextlib.redirect_stderr(io.StringIO()):
+                        cap = capture_factory(dict(log_level="CRITICAL", enable_rate_limiting=False), sc, bind_errors=nerr)
+                except BaseException as e:  # noqa: BLE001
+                    quiet_logs()
+                    ctx.count("monitor", "bind_fault_starts")
+                    ctx.count("outcome", f"bind-fault:{backend}:gave-up:{type(e).__name__}")
+                    ctx.case(("bind-fault", backend, host, nerr, "gave-up"), True, sample={"backend": backend, "host": host, "failed_attempts": nerr, "start_server": f"raised {type(e).__name__}"})
+                    continue
+                quiet_logs()
+                ctx.count("monitor", "bind_fault_starts")
+                loop = new_loop()
+                try:
+                    sw = tlsbench.Sandwich(loop, None, captured=cap)
+                    loop.do(sw.tcp.feed, b"gemini://localhost/\r\n")
+                    loop.run_until(200.0)
+                    out = bytes(sw.tcp.out)
+                    ctx.count("monitor", "plaintext_probes")
+                    wit = {"backend": backend, "host": host, "failed_attempts_to_listen": nerr, "then": "start_server listened again", "listener_ssl_argument": repr(cap.get("kwargs", {}).get("ssl"))[:60],
+                           "protocol_factory_makes": type(sw.server_proto).__name__, "sent_in_clear": b"gemini://localhost/\r\n", "server_wrote": out[:80]}
+                    if re.match(rb"^[0-9][0-9] ", out) or re.search(rb"(^|\r\n)[1-6][0-9] [^\r\n]*\r\n", out):
+                        ctx.violation("plaintext-answered:context=start_server:after-bind-fault", "after a failed attempt to listen the server came up answering a clear-text request", wit)
+                    else:
+                        ctx.count("outcome", f"bind-fault:{backend}:listening-again-with-tls")
+                    ctx.case(("bind-fault", backend, host, nerr, "came-up", bool(out)), True, sample=wit)
+                finally:
+                    close_loop(loop)
+
+
 def run(ctx):
     from nauyaca.protocol.response import GeminiResponse
     from nauyaca.security.pyopenssl_tls import create_pyopenssl_server_context
@@ -616,6 +668,8 @@ def run(ctx):
             plaintext_until_timeouts(ctx, base)
         if ctx.mine(1) or ctx.nshards == 1:
             run_faulty_material(ctx, base)
+        if ctx.mine(2) or ctx.nshards == 1:
+            run_bind_faults(ctx, base)
 
         # ---- client contexts against permissive peers capped at an old version
         for vname, v in VERSIONS[:2]:
